@@ -92,6 +92,13 @@ func c29Run(c *ev.Ctx, maxN int) {
 				if len(mp.HashRanges) != msiLevels(cnt) {
 					c.Report("msi/level-count/"+scheme, fmt.Sprintf("%s, %d relays, index %d: proof has %d levels, ceil(log2(n)) = %d", scheme, cnt, idx, len(mp.HashRanges), msiLevels(cnt)), msiCase{Scheme: scheme, N: cnt, Index: idx})
 				}
+				// from a fresh, unsorted copy of the same relays (the generator orders them itself, as it does for evidence
+				// read back from the store): the same proof as from the slice the root generator left sorted
+				if mp3, leaf3 := pc.GenerateProofs(h, msiSet(cnt, nil), idx); !reflect.DeepEqual(cloneMP(mp3), cloneMP(mp)) || !reflect.DeepEqual(leaf3, leaf) {
+					if ok3, rp3, p3 := msiValidate(mp3, h, root, leaf3, msiLevels(cnt)); p3 != nil || !ok3 || rp3 {
+						c.Report("msi/proof-from-unsorted-relays-rejected/"+scheme, fmt.Sprintf("%s, %d relays, leaf index %d: the proof generated from an unsorted copy of the relays gives (valid=%v, replay=%v, panic=%v) against the root", scheme, cnt, idx, ok3, rp3, p3), msiCase{Scheme: scheme, N: cnt, Index: idx})
+					}
+				}
 				// through the evidence object too
 				evd := pc.Evidence{Proofs: append([]pc.Proof{}, sorted...), NumOfProofs: int64(cnt)}
 				mp2, leaf2 := evd.GenerateMerkleProof(h, idx, int64(cnt))
